@@ -10,10 +10,21 @@ PROPS["C10"] = dict(
          "separate letters. Rapid part: lists of up to 100 (thorough 400) ops; key alphabet size drawn from {2,3,4,8,32,100,300} and in about one case "
          "of 40 (thorough: 80) from {1500,3000,5000} (lists of at most 16 ops, mostly bulk ops, there), bound on open iterators from {1,2,3,6,12,24}; besides the single calls the list may hold bulk ops - add/remove a key range (either direction), "
          "1..4 rounds of fill-and-drain of a key range followed by a refill (churn), open n iterators, n x Next on one or on every open iterator, "
-         "close all, and a full scan with a fresh iterator compared with the model's live order - which Run expands into the single calls and judges one by one "
+         "close all, a full scan with a fresh iterator compared with the model's live order, and 'remat' = Remove of the entry open iterator #i would return next (the entry it is parked on, so that removal under a parked "
+         "iterator is as likely on hundreds of entries as on three) - which Run expands into the single calls and judges one by one "
          "with the same model (at most 30000 single calls per case, 30000+4*keys beyond 1024 keys; the rest of the list is dropped). On a map with more than 8 keys or more than "
          "8 open iterators Len is checked after every single call but Get only for the key of the call and two rotating keys; Get of every key "
-         "follows every op of the list (beyond 1024 keys: every bulk op) and the end of the case. A case in which a call of the map does not return (5 s of process CPU time burnt "
+         "follows every op of the list (beyond 1024 keys: every bulk op) and the end of the case. One rapid case in 6 (2..300 keys) is a list of 1..4 GROWTH-THEN-SHRINK PHASES: add a drawn key range, open 1..3 (or up to the bound) iterators and "
+         "advance each a drawn distance, remat under some of them, 1..3 range removals of drawn extent while they stay parked, close all (or keep them for the next phase), use the map again, with 0..3 ops of the general generator between the stages. "
+         "Unit manyiters (MANY OPEN ITERATORS, same Case/Run/model; beyond 64 allowed iterators Run keeps a per-position count of the iterators instead of scanning their list, and the step bound grows by 40 per allowed iterator): three cases in four are "
+         "WORD-SIZE COUNTS - a map of 2..8 keys, filled, then B-1 / B / B+1 iterators opened at once (B = 256 or 512, in every second case 65536 or 131072; bound on open iterators = that number + 0..2), spread over the positions by one 'stagger' op (iterator #j gets (offset+j) mod (n+1) Next calls), "
+         "then 1..8 mutations of which the first is a remat (then remat / Remove / Add / NewIterator / Close / Next / HasNext / range add / range remove / First / scan), then the READ-OUT: every open iterator is driven to the end, each Next judged by the model, optionally an Add and a second read-out (the new entry must be seen), "
+         "optionally close all; classes remove_pinned_with_open_iterators_ge_N / _multiple_of_256 / _multiple_of_65536 count the Removes of a pinned entry by the number of iterators open at that moment. One case in four is a LONG PINNED RUN: op 'pinrun' = n rounds of "
+         "[Add(k); NewIterator; Next until it stands in front of the new entry; HasNext; Remove(k)], which leaves n consecutive removed entries each pinned by its own iterator (n = 65..1500, thorough 4000; optionally a few live entries in front), followed by First / re-add and scan / the mutations, and the read-out, "
+         "in which the oldest iterators step over the whole run in one call (classes run_of_pinned_removed_entries_ge_N). "
+         "Unit lowstack: the same long-pinned-run cases with n = 8000..12000 (thorough 10000..30000) in a process of its own whose goroutine stack limit is lowered to 256 KiB (runtime/debug.SetMaxStack; the default is 1 GB): 'never panics for every history' is read as covering a call "
+         "whose stack use grows with the length of the run - at the default limit that needs about 10^7 entries, which no affordable history reaches, an application may lower the limit, and the unchanged map steps over the run in a loop (it passes the same cases with a 16 KiB limit). "
+         "A stack overflow is fatal and unrecoverable: the process dies, the driver reports process-crash, and the case in flight is left behind as replay file TestC10LowStack-inflight-seed<N>.json (TestReplay lowers the limit again for it). A case in which a call of the map does not return (5 s of process CPU time burnt "
          "by one case; a case costs milliseconds) is reported as map:hang by a watchdog. Every case ends "
          "with closing the iterators still open, then First/Len/Get and a fresh full iteration. Excluded by the documented "
          "precondition of Close: using an iterator after Close, closing it twice. non-trivial = the case closes or advances an iterator "
@@ -25,6 +36,7 @@ PROPS["C10"] = dict(
                  "between the two calls) is therefore accepted, and HasNext directly followed by Next on an unchanged map must agree",
                  "key and value returned together with flag false (Next, First, Get) are not compared (documented: may be default values); "
                  "the error value of Close is not judged",
+                 "unit lowstack: a fatal stack overflow under a goroutine stack limit of 256 KiB counts as 'panics'; what is asserted is only that the process survives and the results agree with the model, never a bound on stack use",
                  "single-goroutine histories only: the map has no internal synchronisation and the property quantifies over histories, not interleavings"],
     units=[
         dict(name="exhaustive", run="^TestC10Exhaustive$", shards=(8, 16), timeout=(120, 1500)),
@@ -38,7 +50,7 @@ PROPS["C10"] = dict(
 LEVEL_TEXT["C10"] = (
     "Generated-input search with an exact oracle: every history over the full op alphabet up to a depth bound for 2 keys / 2 iterators "
     "and 3 keys / 3 iterators (run through its canonical representative), plus random long histories (up to 400 ops incl. bulk ops, up to 5000 keys, "
-    "up to 24 simultaneously open iterators, big fills and drains, re-added keys) are compared call by call with a sequence-number model of the ordered map, and "
+    "up to 24 simultaneously open iterators, big fills and drains, growth-then-shrink phases, re-added keys; a separate family with 255..131074 simultaneously open iterators on a small map and with runs of up to 30000 removed entries each pinned by its own iterator, the longest ones under a lowered stack limit) are compared call by call with a sequence-number model of the ordered map, and "
     "every case is finished by closing all iterators and using the map again. No counterexample among the cases counted in the "
     "evidence; not a proof for longer histories or larger maps."
 )
